@@ -14,6 +14,9 @@ the meaning of every operator on every shape of value is defined in Coq (C05_PyS
               `if` / `else`; `if <cond>: ... return` followed by more statements (the rest becomes the else branch);
               `return <expr>` in tail position only; ONE `for x in range(<expr>):` per function whose body may end in
               `if <cond>: break` (no other break / continue / else); `name.append(<expr>)`; `print(<f-string of names>)`;
+  names       the four names of the semantics are 1..4; every other name is numbered by first occurrence (methods in TRANSLATED order,
+              parameters in signature order, then locals in the order of their first assignment); per method the aliases
+              gen_<method>__L<i> name its i-th local: the proofs use those, so renaming a local changes nothing;
   dropped     `logger.debug(...)` statements and `if logger.isEnabledFor(logging.DEBUG):` blocks consisting only of them
               (logging is not modelled; stated in the manifest);
   expressions names, None / True / False / int / str constants, `self.attr` (read through the self_attr parameter),
@@ -28,6 +31,7 @@ TRANSLATED = ["_calc_stopping_criterion_birgin_raydan_vectors", "_calc_stopping_
               "calc_proj_physical", "calc_proj_physical_with_var"]
 
 
+NUMBER = {"$err": 1, "$printed": 2, "$break": 3, "$ret": 4}     # filled in main(): name -> positive, by first occurrence
 SPECIAL = {"$err": "N_err", "$printed": "N_printed", "$break": "N_break", "$ret": "N_ret"}      # fixed in C05_PySem.v
 
 
@@ -87,9 +91,14 @@ class Fn:
         self.nfor = 0
         self.pre = []
         self.vars = set(self.params) | set(SPECIAL)
+        stores = sorted((n for n in ast.walk(fdef) if isinstance(n, ast.Name) and isinstance(n.ctx, ast.Store)),
+                        key=lambda n: (n.lineno, n.col_offset))
+        self.locals = []            # local variables in the order of their first assignment (source position): alpha-robust identity
+        for node in stores:
+            self.vars.add(node.id)
+            if node.id not in self.params and node.id not in self.locals:
+                self.locals.append(node.id)
         for node in ast.walk(fdef):
-            if isinstance(node, ast.Name) and isinstance(node.ctx, ast.Store):
-                self.vars.add(node.id)
             if isinstance(node, (ast.FunctionDef, ast.Lambda, ast.ListComp, ast.GeneratorExp, ast.DictComp, ast.SetComp, ast.While,
                                  ast.Try, ast.With, ast.Global, ast.Nonlocal, ast.Delete, ast.AugAssign, ast.NamedExpr, ast.Continue,
                                  ast.Yield, ast.YieldFrom, ast.Await, ast.Starred, ast.IfExp)) and node is not fdef:
@@ -299,7 +308,7 @@ class Fn:
         name = self.f.name
         ps = self.params
         lines = []
-        vars_sorted = sorted(self.vars)
+        vars_sorted = sorted(self.vars, key=lambda v: NUMBER.get(v, 0))
         lines.append("Definition gen_%s__vars : list name := [%s]." % (name, "; ".join(nm(v) for v in vars_sorted)))
         # defaults
         d = self.f.args.defaults
@@ -335,19 +344,31 @@ def main():
     missing = [f for f in TRANSLATED if f not in fdefs]
     if missing:
         raise Unsupported("methods not found: %s" % missing)
+    # numbering: the four fixed names, then every name in the order of its first occurrence (functions in TRANSLATED order,
+    # parameters in signature order, then locals in the order of their first assignment).  Renaming a local therefore
+    # changes no number; the per-function aliases gen_<f>__L<i> (i-th local of f) are what the proofs refer to.
     known = {}
-    chunks = []
-    allvars = set()
+    fns = []
     for name in TRANSLATED:
         fn = Fn(fdefs[name], dict(known))
-        chunks.append("(* %s : quara/objects/qoperation.py line %d *)\n%s" % (name, fdefs[name].lineno, fn.emit()))
+        fns.append(fn)
         known[name] = len(fn.params) - 1
-        allvars |= fn.vars
-    table = ["(* variable names: numbered in sorted order after the four fixed names of the semantics (1..4) *)"]
-    for i, v in enumerate(sorted(allvars - set(SPECIAL))):
-        if not v.isidentifier():
-            raise Unsupported("variable name %r" % v)
-        table.append("Notation N_%s := %d%%positive (only parsing)." % (v, i + 5))
+        for v in fn.params + fn.locals:
+            if not v.isidentifier():
+                raise Unsupported("variable name %r" % v)
+            if v not in NUMBER:
+                NUMBER[v] = len(NUMBER) + 1
+    table = ["(* variable names -> numbers (1..4 are the fixed names of the semantics) *)"]
+    for v, k in sorted(NUMBER.items(), key=lambda kv: kv[1]):
+        if v not in SPECIAL:
+            table.append("Notation N_%s := %d%%positive (only parsing)." % (v, k))
+    table.append("(* positional aliases: the i-th local variable (order of first assignment) of each translated method *)")
+    for fn in fns:
+        for i, v in enumerate(fn.locals):
+            table.append("Notation gen_%s__L%d := %d%%positive (only parsing).   (* %s *)" % (fn.f.name, i + 1, NUMBER[v], v))
+    chunks = []
+    for fn in fns:
+        chunks.append("(* %s : quara/objects/qoperation.py line %d *)\n%s" % (fn.f.name, fn.f.lineno, fn.emit()))
     hdr = ["(* GENERATED by gen/c05_py2coq.py from %s — do not edit *)" % path,
            "From Coq Require Import List Arith Bool String ZArith.",
            "From QV.Core Require Import OF Sums Mat.",
